@@ -26,7 +26,7 @@ TEMPO_DENSE = ((0, 120000), (1, 90000), (2, 150000), (3, 60000), (4, 200000))
 # the checks of the statement are about TICKS (codes 201.. : very fast tempo at resolution 960; 301.. : resolution 10^9)
 TEMPO_FAST = ((0, 700000000), (10, 900000000), (20, 1000000000), (30, 800000000))
 TEMPO_RESTATE = ((0, 120000), (10, 120000), (20, 90000), (30, 90000), (40, 90000), (50, 150000))
-KINDS = ("TS", "text", "section", "lyric", "S", "E", "N", "Nend")
+KINDS = ("TS", "text", "section", "lyric", "S", "E", "N", "Nend", "Nend-chord0", "Nend-chord1")
 LONG = (9, 10, 16, 17, 18, 33, 40, 65)  # tempo-map lengths around plausible fast-path thresholds
 
 PROBE_SRC = '''
@@ -110,7 +110,12 @@ def event_lines(kind, t):
         return [], [], ["%d = E solo" % t]
     if kind == "N":
         return [], [], ["%d = N 0 0" % t]
-    return [], [], ["%d = N 0 %d" % (max(0, t - 4), t - max(0, t - 4))]  # sustain END lands on t
+    t0 = max(0, t - 4)
+    if kind == "Nend-chord0":  # mixed chord: the first written lane is unsustained, a higher lane's END lands on t
+        return [], [], ["%d = N 0 0" % t0, "%d = N 2 %d" % (t0, t - t0)]
+    if kind == "Nend-chord1":  # mixed chord: short first lane, the longest lane written last, a flag line with a length
+        return [], [], ["%d = N 1 %d" % (t0, min(1, t - t0)), "%d = N 3 %d" % (t0, max(0, t - t0 - 1)), "%d = N 4 %d" % (t0, t - t0), "%d = N 6 0" % t0]
+    return [], [], ["%d = N 0 %d" % (t0, t - t0)]  # sustain END lands on t
 
 
 def chart(tempo, ts=((0, 4),), res="192", extra=((), (), ()), song_extra=()):
